@@ -211,6 +211,15 @@ def max_depth(synset: 'Synset', simulate_root: bool = False) -> int:
     )
 
 
+def _common_hypernyms(
+        from_self: list[list['Synset']], from_other: list[list['Synset']]
+) -> list['Synset']:
+    common = set(flatten(from_self)).intersection(flatten(from_other))
+    # inferred synsets and the fake root all compare as equal; also
+    # order them by ILI so the result does not depend on set order
+    return sorted(common, key=lambda ss: (ss._id, ss._ili or ''))
+
+
 def _shortest_hyp_paths(
         synset: 'Synset', other: 'Synset', simulate_root: bool
 ) -> dict[tuple['Synset', int], list['Synset']]:
@@ -219,7 +228,7 @@ def _shortest_hyp_paths(
 
     from_self = _hypernym_paths(synset, simulate_root, True)
     from_other = _hypernym_paths(other, simulate_root, True)
-    common = set(flatten(from_self)).intersection(flatten(from_other))
+    common = _common_hypernyms(from_self, from_other)
 
     if not common:
         return {}
@@ -233,7 +242,7 @@ def _shortest_hyp_paths(
     for which, paths in (0, from_self), (1, from_other):
         for path in paths:
             for dist, ss in enumerate(path):
-                if ss in common:
+                if ss in subpaths:
                     # synset or other subpath to ss (not including ss)
                     subpaths[ss][which].append(path[:dist + 1])
                     # keep maximum depth
@@ -244,7 +253,7 @@ def _shortest_hyp_paths(
     shortest: dict[tuple[Synset, int], list[Synset]] = {}
     # iterate in a fixed order so that ties between equally short paths
     # or equally deep hypernyms do not depend on set iteration order
-    for ss in sorted(common):
+    for ss in common:
         from_self_subpaths, from_other_subpaths = subpaths[ss]
         shortest_from_self = min(from_self_subpaths, key=len)
         # for the other path, we need to reverse it and remove the pivot synset
@@ -319,8 +328,7 @@ def common_hypernyms(
     """
     from_self = _hypernym_paths(synset, simulate_root, True)
     from_other = _hypernym_paths(other, simulate_root, True)
-    common = set(flatten(from_self)).intersection(flatten(from_other))
-    return sorted(common)
+    return _common_hypernyms(from_self, from_other)
 
 
 def lowest_common_hypernyms(
